@@ -18,6 +18,5 @@ open SamVerif.Doc SamVerif.CommentQueue
 #print axioms queue_conserves
 #print axioms queue_complete
 #print axioms consume_takes_all_pending
-#print axioms prepend_conserves_counterexample
-#print axioms prepend_conserves_partial
-#print axioms prepend_nothing
+#print axioms createRef_get
+#print axioms prepend_conserves
